@@ -15,6 +15,7 @@ import (
 	"go/parser"
 	"go/printer"
 	"go/token"
+	"hash/fnv"
 	"math"
 	"os"
 	"path/filepath"
@@ -417,6 +418,85 @@ type Module struct {
 	Global  map[string]string
 	Sites   []Site
 	Raw     func(repo string) []string // extra generated lines
+	Pin     []string                   // further "file:Func" whose source text is fingerprinted
+}
+
+// fingerprints of the source text (go/printer, comments dropped) of every function a module's
+// sites refer to, plus Module.Pin: any edit of a modelled function changes one of them
+func digests(repo string, m Module) (string, []string) {
+	var errs []string
+	seen := map[string]bool{}
+	var keys []string
+	add := func(file, fn string) {
+		if fn == "" {
+			return
+		}
+		k := file + ":" + fn
+		if !seen[k] {
+			seen[k] = true
+			keys = append(keys, k)
+		}
+	}
+	for _, s := range m.Sites {
+		add(s.File, s.Func)
+	}
+	for _, p := range m.Pin {
+		i := strings.LastIndex(p, ":")
+		if p[i+1:] != "*" {
+			add(p[:i], p[i+1:])
+			continue
+		}
+		f, err := parse(repo, p[:i])
+		if err != nil {
+			errs = append(errs, "digest "+p+": "+err.Error())
+			continue
+		}
+		for _, d := range f.Decls {
+			fd, ok := d.(*ast.FuncDecl)
+			if !ok {
+				continue
+			}
+			name := fd.Name.Name
+			if fd.Recv != nil && len(fd.Recv.List) == 1 {
+				t := fd.Recv.List[0].Type
+				if st, ok := t.(*ast.StarExpr); ok {
+					t = st.X
+				}
+				if id, ok := t.(*ast.Ident); ok {
+					name = id.Name + "." + name
+				}
+			}
+			add(p[:i], name)
+		}
+	}
+	sort.Strings(keys)
+	var b strings.Builder
+	b.WriteString("-- GENERATED by /verif/extract from the Go sources; do not edit.\n")
+	b.WriteString("namespace " + m.NS + "Src\n\n")
+	b.WriteString("/-- FNV-1a (64 bit) of the printed source of every modelled function -/\ndef digests : List (String × String) := [\n")
+	for i, k := range keys {
+		j := strings.LastIndex(k, ":")
+		f, err := parse(repo, k[:j])
+		hex := ""
+		if err != nil {
+			errs = append(errs, "digest "+k+": "+err.Error())
+		} else if fd := findFunc(f, k[j+1:]); fd == nil {
+			errs = append(errs, "digest "+k+": function not found")
+		} else {
+			var buf strings.Builder
+			_ = printer.Fprint(&buf, token.NewFileSet(), fd)
+			h := fnv.New64a()
+			_, _ = h.Write([]byte(buf.String()))
+			hex = fmt.Sprintf("%016x", h.Sum64())
+		}
+		sep := ","
+		if i == len(keys)-1 {
+			sep = ""
+		}
+		fmt.Fprintf(&b, "  (%s, %s)%s\n", strconv.Quote(k), strconv.Quote(hex), sep)
+	}
+	b.WriteString("]\n\nend " + m.NS + "Src\n")
+	return b.String(), errs
 }
 
 func generate(repo string, m Module) (string, []string) {
@@ -566,6 +646,19 @@ func main() {
 		for _, e := range errs {
 			fmt.Println("EXTRACT-ERROR " + e)
 			failed = true
+		}
+		// source fingerprints go to a file of their own: only the pins (and through them the property
+		// modules) import it, never the model or the driver
+		dtext, derrs := digests(*repo, m)
+		for _, e := range derrs {
+			fmt.Println("EXTRACT-ERROR " + e)
+			failed = true
+		}
+		dpath := filepath.Join(*out, strings.TrimSuffix(m.Path, ".lean")+"Src.lean")
+		if oldd, _ := os.ReadFile(dpath); string(oldd) != dtext {
+			_ = os.MkdirAll(filepath.Dir(dpath), 0755)
+			_ = os.WriteFile(dpath, []byte(dtext), 0644)
+			fmt.Println("updated " + strings.TrimSuffix(m.Path, ".lean") + "Src.lean")
 		}
 		path := filepath.Join(*out, m.Path)
 		if len(errs) > 0 {
